@@ -46,7 +46,7 @@ def main(tier, only):
         common.src_range("src/isla/solver.py", "solve")])
     quick = tier == "quick"
     D, TOP = (3, 8) if quick else (4, 16)
-    P = 8 if quick else 16
+    P = 4 if quick else 16
     to = 600 if quick else 5400
     cfgs = []
     for which in ("csv", "xml", "rest"):
@@ -58,7 +58,7 @@ def main(tier, only):
         for feat in KNOWN_FEATURES.get(which, []) + RISKY_FEATURES.get(which, []):
             cfgs.append(dict(tag="%s.class-%s" % (which, feat), only=["adq_" + which], timeout=to,
                              env={"VERIF_D": "4", "VERIF_RTL": "0", "VERIF_ONLY_FEATURE": feat, "VERIF_RISKY": "1"}))
-    PT = 16
+    PT = 8 if quick else 16
     for k in range(PT):
         cfgs.append(dict(tag="tar.p%d" % k, only=["adq_tar"], timeout=to, env={"VERIF_PART": "%d/%d" % (k, PT), "VERIF_TAR2": "0" if quick else "1"},
                          allow_vacuous=True))
@@ -85,7 +85,8 @@ def main(tier, only):
     xh.record(run, res, "", keyfn)
     return run.finish(
         "For every bounded derivation tree of the shipped CSV / XML / reST / simple-TAR grammars on which the shipped constraint evaluates to TRUE, an independent validator "
-        "(csv module, expat, docutils, hand-written tar check) accepts the string; and for every enumerated solver configuration every produced solution is accepted.")
+        "(csv module, expat, docutils, hand-written tar check) accepts the string; and for every enumerated solver configuration every produced solution is accepted.",
+        samples=[dict(name=o["name"], verdict=o["verdict"], solver_s=o.get("solver_s")) for o in run.obligations])
 
 
 def replay(d):
